@@ -164,6 +164,10 @@ func (jcc *JWTCredClaims) refineFromJWTClaims() {
 	vcMap := jcc.VC
 	claims := jcc.Claims
 
+	if claims == nil {
+		return
+	}
+
 	if iss := claims.Issuer; iss != "" {
 		refineVCIssuerFromJWTClaims(vcMap, iss)
 	}
